@@ -10,7 +10,7 @@ macro "opaque_arith" : tactic => `(tactic|
    try generalize wrapAddU32 = wadd32 at *
    try generalize usizeAsU32 = asu32 at *))
 
-macro "step_grind" : tactic => `(tactic| (opaque_arith; grind (gen := 60) (ematch := 40)))
+macro "step_grind" : tactic => `(tactic| (opaque_arith; grind (gen := 60) (ematch := 40) (splits := 40)))
 
 section
 variable {cx : Option String} {s0 s : Streams}
